@@ -143,6 +143,7 @@ pub open spec fn editable_pfx() -> Seq<char> { "__editable__."@ }
 pub open spec fn underscore() -> Seq<char> { "_"@ }
 /// the .pth stems looked for, in this order: `__editable__.<n>`, `_<n>`, `<n>` for the normalised name, then (only if
 /// it differs) the same three for the raw name
+#[verifier::opaque]
 pub open spec fn pth_cands(raw: Seq<char>, norm: Seq<char>) -> Seq<Seq<char>> {
     let a = seq![editable_pfx() + norm, underscore() + norm, norm];
     if raw != norm { a + seq![editable_pfx() + raw, underscore() + raw, raw] } else { a }
@@ -166,6 +167,7 @@ pub open spec fn line_root(sp: PV, t: Seq<char>) -> Option<PV> {
     match fs_canonical(resolved) { Some(c) => if fs_is_dir(c) { Some(c) } else { None }, None => None }
 }
 /// the first line, from line k on, that is a path line and denotes a directory
+#[verifier::opaque]
 pub open spec fn pth_lines_root(sp: PV, ls: Seq<Seq<char>>, k: int) -> Option<PV>
     decreases ls.len() - k
 {
@@ -181,6 +183,7 @@ pub open spec fn pth_file_root(sp: PV, cands: Seq<Seq<char>>, stem: Seq<char>, p
     }
 }
 /// the first entry of the enumeration e, from k on, that contributes a root
+#[verifier::opaque]
 pub open spec fn pth_first(sp: PV, cands: Seq<Seq<char>>, e: Seq<(Seq<char>, PV)>, k: int) -> Option<PV>
     decreases e.len() - k
 {
@@ -192,3 +195,14 @@ pub open spec fn pth_first(sp: PV, cands: Seq<Seq<char>>, e: Seq<(Seq<char>, PV)
 pub open spec fn op_pth_root(sp: PV, idx: &PthIndex, raw: Seq<char>, norm: Seq<char>) -> Option<PV> {
     pth_first(sp, pth_cands(raw, norm), pairs_v(hm_enum(idx)), 0)
 }
+
+/// PROVED: one unfolding of the two (opaque) searches, and their value past the end
+pub proof fn lemma_pth_first_unfold(sp: PV, cands: Seq<Seq<char>>, e: Seq<(Seq<char>, PV)>, k: int)
+    ensures pth_first(sp, cands, e, k) == (if k < 0 || k >= e.len() { None } else {
+        match pth_file_root(sp, cands, e[k].0, e[k].1) { Some(p) => Some(p), None => pth_first(sp, cands, e, k + 1) } }),
+{ reveal_with_fuel(pth_first, 2); }
+pub proof fn lemma_pth_lines_unfold(sp: PV, ls: Seq<Seq<char>>, k: int)
+    ensures pth_lines_root(sp, ls, k) == (if k < 0 || k >= ls.len() { None } else {
+        let t = trim_v(ls[k]);
+        if !line_skipped(t) && !line_invalid(t) && line_root(sp, t) is Some { line_root(sp, t) } else { pth_lines_root(sp, ls, k + 1) } }),
+{ reveal_with_fuel(pth_lines_root, 2); }
